@@ -13,7 +13,7 @@ func VerifC06_truncated() {
 	}
 	var kinds [2]int
 	if verifThorough() {
-		kinds = [2]int{verifChoose(verifNumKinds), verifChoose(verifNumKinds)}
+		kinds = [2]int{[3]int{verifKindBatch1, verifKindV1, verifKindBatch2}[verifChoose(3)], [3]int{verifKindBatch2, verifKindV0, verifKindBatch1}[verifChoose(3)]}
 	} else {
 		// (1-record batch, 2-record batch) or (v1 message, v0 message)
 		c := verifChoose(2)
@@ -27,8 +27,8 @@ func VerifC06_truncated() {
 		u := verifC06Unit(k, i)
 		verifAssume(u.firstOffset() > prevLast)
 		prevLast = u.lastOffset()
-		if u.magic == 2 && !verifThorough() {
-			verifAssume(u.attrs&0x28 == 0) // quick: CreateTime data batches
+		if u.magic == 2 {
+			verifAssume(u.attrs&0x28 == 0) // CreateTime data batches
 		}
 		units = append(units, u)
 		data = u.encode(data)
@@ -81,7 +81,7 @@ func VerifC06_shortRecords() {
 	extraBytes := extra.encode(nil)
 	var k int
 	if verifThorough() {
-		k = verifChoose(len(extraBytes)) // 0 .. len-1: never the whole record
+		k = [4]int{0, 1, len(extraBytes) / 2, len(extraBytes) - 1}[verifChoose(4)]
 	} else {
 		k = [3]int{0, 1, len(extraBytes) - 1}[verifChoose(3)]
 	}
